@@ -44,7 +44,7 @@ def history(plan, rnd, nsteps, dense_until):
             # a burst of long fresh words: the string arena rolls over to a new pool every MiB
             if rnd.random() < 0.25:
                 # a word larger than one pool of the string arena (1 MiB): it gets a pool of its own
-                lines.append("S 1 %d" % rnd.choice([1048569, 1048577, 1100000, 2500000]))
+                lines.append("S 1 %d" % rnd.choice([1048569, 1048577, 1100000, 2500000, 100009, 70013, 200015, 524299]))
             else:
                 lines.append("S %d %d" % (rnd.choice([20, 60]), rnd.choice([700, 5000, 17000])))
         if s < dense_until:
